@@ -40,13 +40,27 @@ fn version_bytes(v: Version) -> &'static [u8] {
 }
 
 pub fn run_request(stream: Vec<u8>, pattern: Vec<usize>, dflt: Option<Vec<u8>>, max: usize, limit: usize) -> String {
+    run_request_on(stream, pattern, dflt, max, limit, false)
+}
+
+/// `open`: the peer keeps the connection open after the stream (reads stay pending; the head read times out after
+/// 40 ms instead of 5 s)
+pub fn run_request_on(stream: Vec<u8>, pattern: Vec<usize>, dflt: Option<Vec<u8>>, max: usize, limit: usize, open: bool) -> String {
     let rt = tokio::runtime::Builder::new_current_thread().enable_time().build().unwrap();
-    let rd = Scripted { data: stream, pos: 0, pattern, call: 0, log: vec![] };
+    let rd = Scripted { data: stream, pos: 0, pattern, call: 0, log: vec![], open };
     let rd = Arc::new(tokio::sync::Mutex::new(rd));
+    let head_timeout = if open { std::time::Duration::from_millis(40) } else { std::time::Duration::from_secs(5) };
     rt.block_on(async move {
+        let whole = tokio::time::timeout(std::time::Duration::from_secs(8), run_request_inner(rd, dflt, max, limit, head_timeout)).await;
+        whole.unwrap_or_else(|_| "hang".into())
+    })
+}
+
+async fn run_request_inner(rd: Arc<tokio::sync::Mutex<Scripted>>, dflt: Option<Vec<u8>>, max: usize, limit: usize, head_timeout: std::time::Duration) -> String {
+    {
         let (req, early) = {
             let mut guard = rd.lock().await;
-            match kvarn_async::read::request(&mut *guard, max, dflt.as_deref(), "http", std::time::Duration::from_secs(5)).await {
+            match kvarn_async::read::request(&mut *guard, max, dflt.as_deref(), "http", head_timeout).await {
                 Ok(x) => x,
                 Err(e) => return format!("err:{}", err_name(&e)),
             }
@@ -61,7 +75,7 @@ pub fn run_request(stream: Vec<u8>, pattern: Vec<usize>, dflt: Option<Vec<u8>>, 
         let target = req.uri().path_and_query().map(|p| p.as_str().as_bytes().to_vec()).unwrap_or_default();
         let host = req.uri().authority().map(|a| a.as_str().as_bytes().to_vec()).unwrap_or_default();
         format!("ok {} body={}", show_head(req.method().as_str().as_bytes(), &target, version_bytes(req.version()), &host, &mut hs), digest(&b))
-    })
+    }
 }
 
 #[derive(Clone)]
@@ -179,6 +193,19 @@ impl Group for Request1 {
             let tag = format!(" #{}", hex(exp.as_bytes()));
             // every single cut position for short messages, else a sample of cuts
             let cuts: Vec<usize> = if bytes.len() <= 200 && i < nreq / 3 { (1..bytes.len()).collect() } else { (0..6).map(|_| rng.range(1, bytes.len().max(2) - 1)).collect() };
+            // the peer keeps the connection open (a keep-alive client): a complete head must be found without EOF
+            let complete_body = no_body || !has_len || true;
+            if complete_body && (bytes.len() <= 200 || i % 4 == 0) {
+                let open_cuts: Vec<usize> = if bytes.len() <= 200 && i < nreq / 3 { (1..bytes.len()).collect() } else { vec![head_len.saturating_sub(1).max(1), head_len.saturating_sub(2).max(1), head_len.saturating_sub(3).max(1)] };
+                for c in open_cuts {
+                    v.push(mk(&bytes, &format!("[{c},100000]"), &tag).replacen("c07.request ", "c07.request-open ", 1));
+                }
+                for k in [1usize, 2, 3] {
+                    if bytes.len() < 600 {
+                        v.push(mk(&bytes, &format!("[{k}]"), &tag).replacen("c07.request ", "c07.request-open ", 1));
+                    }
+                }
+            }
             for c in cuts {
                 v.push(mk(&bytes, &format!("[{c},100000]"), &tag));
             }
@@ -228,7 +255,7 @@ impl Group for Request1 {
         let stream = unhex(p[1]).unwrap();
         let pattern: Vec<usize> = parse_list(p[2]).unwrap().iter().map(|s| s.parse().unwrap()).collect();
         let dflt = if p[3] == "none" { None } else { Some(unhex(p[3]).unwrap()) };
-        run_request(stream, pattern, dflt, p[4].parse().unwrap(), p[5].parse().unwrap())
+        run_request_on(stream, pattern, dflt, p[4].parse().unwrap(), p[5].parse().unwrap(), p[0] == "c07.request-open")
     }
     /// the assembled `scheme://host/target` must be accepted by the real `http::Uri`: finish the model's prediction
     fn canon(&self, out: &str) -> String {
